@@ -555,7 +555,7 @@ pub fn run(ctx: &RunCtx) -> i32 {
     check_ip_hosts(&rt, &mut total);
     check_domain_constructors(&mut total);
     // (b) requests
-    let n_cases = ctx.tier.sz(60_000, 3_000_000);
+    let n_cases = ctx.tier.sz(600_000, 60_000_000);
     let per = 200u64;
     let rep = par_run(ctx.workers, n_cases.div_ceil(per), |j, r| {
         let rt = new_runtime();
